@@ -17,7 +17,7 @@ CONFIG = dict(
              "and upper-case hex, mnemonic words, arbitrary text; other types: first M addresses generated in ONE batch by a fresh wallet with the same seed; for "
              "xpub also the seed wallet's external chain) and then runs random generate/scan(with activity sets)/Serialize+Load/"
              "Lock+Unlock sequences, including derivation on both bip44 chains WHILE LOCKED and through wallet.GuardUpdate, scans whose transaction finder fails (no effect on entries or lastSeed), and two-account bip44 wallets (per account and chain the entries are map child [0..N); a wallet-wide scan never shrinks another account: cscan_keeps); the driver predicts the entry list, returned addresses and lastSeed of every step from the "
-             "reference via the model; Entry.Verify / VerifyPublic and equality of every entry (public and secret key) with the unencrypted reference wallet is checked after every unlock and at the end.",
+             "reference via the model; Entry.Verify / VerifyPublic and equality of every entry (public and secret key) with the unencrypted reference wallet is checked after every unlock and at the end. Collection wallets receive key batches that mix keys already held and new ones in every order (and repeats); the entries must be exactly the requested keys in order, each entry's public key that of its secret key, also after reload and lock/unlock.",
         note="The iterator/child functions are parameters: that cipher.MustGenerateDeterministicKeyPairsSeed really is an unfold of one "
              "step function (n then m from the returned seed = n+m) is what the correspondence checks; reload and lock/unlock are "
              "identities in the model (their fidelity is C18/C19 and is re-checked here by the tie). Collection wallets: entries = "
